@@ -53,6 +53,20 @@ def r1(ctx):
     # the width of the window is computed without a panicking subtraction: the setters overwrite only the maximum (the minimum is
     # inherited from the builder, which is the only place that validates max >= min), so max < min is a reachable configuration
     subs = [t2 for bb, t2 in b.calls(re.compile(r"Duration as std::ops::Sub>::sub$")) if any(a.startswith("field:turmoil::config::Latency::") for x in t2["args"] for a in Slicer(ctx.w).atoms(b, x))]
+    # `if max > min { max - min } else { ZERO }` is the saturating subtraction spelled out
+    def _guarded(bb, t2):
+        sl = Slicer(ctx.w)
+        x, y = sl.atoms(b, t2["args"][0]), sl.atoms(b, t2["args"][1])
+        if x == y:
+            return False
+        for sbb, te, fe, o in guards_on(b, lambda o: o["k"] == "call" and re.search(r"PartialOrd.*::(gt|ge|lt|le)$", o["t"]["f"])):
+            ga, gb = sl.atoms(b, o["t"]["args"][0]), sl.atoms(b, o["t"]["args"][1])
+            if o["t"]["f"].rsplit("::", 1)[1] in ("lt", "le"):
+                ga, gb = gb, ga
+            if (ga, gb) == (x, y) and te and b.dominated_by_any(bb, edges=te):
+                return True
+        return False
+    subs = [t2 for bb, t2 in b.calls(re.compile(r"Duration as std::ops::Sub>::sub$")) if t2 in subs and not _guarded(bb, t2)]
     ctx.inst(R, "delay:window-width-saturates", not subs, subs[0]["s"] if subs else b.span, "max - min is computed with a saturating / checked subtraction" if not subs else
              "Link::delay computes max_message_latency - min_message_latency with the panicking `-`: after set_link_max_message_latency / set_max_message_latency "
              "with a value below the inherited minimum every send on the link panics (`overflow when subtracting durations`) and takes the simulation down")
